@@ -138,3 +138,13 @@ func bitmapOf(xs ...uint32) *roaring.Bitmap {
 }
 
 func modeStr(m uint32) string { return fmt.Sprintf("mode=%d", m) }
+
+func errText(msg string, err error) string {
+	if err != nil {
+		if msg != "" {
+			return msg + " " + err.Error()
+		}
+		return err.Error()
+	}
+	return msg
+}
